@@ -3,7 +3,8 @@
 Behaviours  H ; reset ; P  from four component models whose reset operator is checked (in the model) to equal
 'freshly initialised and started with the current dictionary values'; P exposes the post-reset behaviour
 incl. the timer pool occupancy.  (L) is the LSS slave: reset in the middle of the selective / identify sequences.
-The SDO server part of the statement is exercised by the reset probe of C05."""
+The SDO server part: recorded PRNG dialogues with resets in the middle of transfers on one and two servers (CoSsdoTrace),
+next to the reset probe of C05."""
 import common, node_common, node_check, pdo_check, vlib
 import C15, C18, C19
 
@@ -34,3 +35,9 @@ def run(ctx):
         ctx.replay(behs, pre, obs, ordered=node_check.tick_unordered, label="edges_" + pid)
         w = ctx.gen_walks(module, "%s_walk.cfg" % pid, num=40 if q else 1500, depth=45, timeout=2500)
         ctx.replay(w, pre, obs, ordered=node_check.tick_unordered, label="walks_" + pid)
+    # SDO servers (all of them) idle after the reset: recorded dialogues of PRNG clients on a CO_SSDO_N = 2 build with NMT reset
+    # communication arriving in the middle of transfers, validated by TLC against CoSsdoTrace
+    import sdo_trace
+    sdo_trace.run(ctx, 400 if q else 15000, ndlg=10, nsrv=2, profile="C20")
+    sdo_trace.run(ctx, 300 if q else 10000, ndlg=10, nsrv=1, profile="C20")
+VARIANTS = {"default": (), "n2": ("CO_SSDO_N=2",)}
